@@ -57,7 +57,7 @@ BUILT = {
    "FIDE 9.2/9.3 on the reference game; tolerant zone T3 for the two readings of 'en-passant possibility'",
    "exhaustive menu sequences + deviation-bounded exploration of long histories against a reference claim rule"),
  "C12": ("model_checking", "E1 posgraph positions + E3 text sweep", "5.C12",
-   "For ~13k positions every admissible spelling of every legal move must parse to it; on ~60 positions every grammar-complete text (~180k each) is judged by a reference interpreter; 1-edit balls of all spellings and all short strings must be panic-free and only ever return legal moves; call-order pairs (positions whose hashes agree in a truncation of the key) are asked about back to back.",
+   "For ~13k positions every admissible spelling of every legal move must parse to it; on ~60 positions every grammar-complete text (~180k each) is judged by a reference interpreter; 1-edit balls of all spellings and all short strings must be panic-free and only ever return legal moves; call-order pairs (positions whose hashes agree in a truncation of the key) are asked about back to back; castling texts are judged on every position (castling where legal, rejected otherwise).",
    "independent SAN writer/interpreter; tolerant zone T4 for unvalidated markers and castling spelled as a king move",
    "exhaustive enumeration of spellings and grammar-complete texts per position against a reference interpreter"),
  "C13": ("exploration", "E3 sweep", "5.C13",
@@ -65,7 +65,7 @@ BUILT = {
    "the alphabet and length bound for the trie; single-character aliasing is covered for every scalar value, lengths up to 2^20",
    "complete enumeration of a finite input domain"),
  "C14": ("model_checking", "E2 protocol", "5.C14",
-   "Per position every program [<=2 removals][<=3 mask phases][flush] within stated bounds (plus a removal right after a mask call) is executed on the real MoveGen twice — with len() and size_hint() read before every next(), and with no such call at all; judged against a reference remaining-move set; the provided Iterator methods (count, last, fold, nth, take, skip, step_by) after 0..5 plain next() calls are compared with plain iteration.",
+   "Per position every program [<=2 removals][<=3 mask phases][flush] within stated bounds (plus a removal right after a mask call) is executed on the real MoveGen twice — with len() and size_hint() read before every next(), with no such call at all, and with len() read only now and then; judged against a reference remaining-move set; the provided Iterator methods (count, last, fold, nth, take, skip, step_by) after 0..5 plain next() calls are compared with plain iteration.",
    "reference legal-move set; tolerant zone T5 (moves sharing source and destination with a removed move); remove_move's return value is not judged",
    "exhaustive enumeration of iterator call programs against a reference model"),
  "C15": ("exploration", "E3 sweep (two builds)", "5.C15",
